@@ -16,6 +16,7 @@ type streamLog struct {
 	ssrc                       uint32
 	sequence                   sequencenumber.Unwrapper
 	init                       bool
+	reported                   bool  // metricsAfter was called at least once
 	nextSequenceNumberToReport int64 // next to report
 	lastSequenceNumberReceived int64 // highest received
 	log                        map[int64]*packetReport
@@ -40,7 +41,12 @@ func (l *streamLog) add(ts time.Time, sequenceNumber uint16, ecn uint8) {
 	}
 	// Drop late/duplicate packets below the report pointer: metricsAfter never reads below it, so they would leak.
 	if unwrappedSequenceNumber < l.nextSequenceNumberToReport {
-		return
+		if l.reported {
+			return
+		}
+		// Nothing has been reported yet: a reordered packet older than the first one we saw still belongs
+		// into the first report, so the report pointer moves back instead of dropping the packet.
+		l.nextSequenceNumberToReport = unwrappedSequenceNumber
 	}
 	if report, ok := l.log[unwrappedSequenceNumber]; ok {
 		// Duplicate: RFC 8888 section 3.1 requires the arrival time (and ECN mark) of the first copy,
@@ -65,6 +71,7 @@ func (l *streamLog) add(ts time.Time, sequenceNumber uint16, ecn uint8) {
 //
 //nolint:cyclop
 func (l *streamLog) metricsAfter(reference time.Time, maxReportBlocks int64) rtcp.CCFeedbackReportBlock {
+	l.reported = true
 	if len(l.log) == 0 {
 		return rtcp.CCFeedbackReportBlock{
 			MediaSSRC:     l.ssrc,
